@@ -38,7 +38,7 @@ CHECKS = {
   "Static, partial. Decides: output is append-only inside one forward loop over the input; iteration i expands cells[i] to Some(target) and uses the resolution recorded for index i; the "
   "finer-than-target test runs for every element before the output exists; the fan-out table agrees with the hierarchy over all 746 (resolution, target) pairs; the target is refused up front exactly outside -1..=29 (U5, finite evaluation of the target-only guards); loops are read through the k-th item of the sequence they walk (for / while / enumerate / zip / aligned local vectors alike); shared: C07.T2/T3 (children fan-out and bit placement). Does NOT decide the descendant arithmetic."),
  "C11": ("6/C11", "custom MIR dataflow rules (guarded push, provenance, length-preserving stages)",
-  "Static, thin partial. Decides: ring closure under closed_ring with element 0 of the same normalised vector; requested subdivision honoured; one push per element in each stage; the unwrap reference is a longitude on every path; every +-180 comparison tests the longitude of the point being mapped (B5); split_edges and cell_to_boundary never read the padded 5-slot vertex array (B6); split_edges pushes each vertex followed by exactly segments-1 interior points counted in integers (B7: one vertex loop, one integer-counted inner loop, one push each); shared: full-period wraps (C19.A5); C04.R1 (ring built from the length-exact split pentagon). "
+  "Static, thin partial. Decides: ring closure under closed_ring with element 0 of the same normalised vector; requested subdivision honoured; one push per element in each stage; the unwrap reference is a longitude on every path; every +-180 comparison tests the longitude of the point being mapped, as its signed distance from the reference - point and reference enter with opposite signs (B5); no function outside the vetted ones reads the padded 5-slot vertex array (B6 census); split_edges pushes each vertex followed by exactly segments-1 interior points counted in integers (B7: one vertex loop, one integer-counted inner loop, one push each); shared: full-period wraps (C19.A5); C04.R1 (ring built from the length-exact split pentagon). "
   "Does NOT decide finiteness, latitude range, orientation, longitude window (numerical)."),
  "C13": ("6/C13", "global-state census, effect analysis over the resolved call graph, memo-table soundness with key enumeration from the range analysis",
   "Static, all clauses (proof-style: every obligation enumerated and discharged mechanically). For EVERY call history and thread interleaving: statics are immutable, once-cells or "
